@@ -49,7 +49,7 @@ def _source(n_min=2):
     plain = polysrc.source(KINDS, n_min=n_min)
     # a quarter of the sources over the label pools built to upset key ordering (int / float mixes, strings whose
     # natural and lexicographic orders differ, equal str(), equal hashes); at least three labels
-    return st.one_of(plain, plain, plain, polysrc.source(KINDS, n_min=max(n_min, 3), order_pools=True))
+    return st.one_of(plain, plain, polysrc.source(KINDS, n_min=max(n_min, 3), order_pools=True))
 
 
 def _slot(cls):
@@ -109,7 +109,10 @@ def _add_cancel(spec):
 
         def val(l):
             return conn.get(l, 0)
-    key, coef = terms[idx % len(terms)]
+    # prefer a term in which a substituted label sits next to at least two kept ones (the kept part is then a key of its
+    # own, and the appended term below has to merge with it), if there is one
+    cand = [t for t in terms if any(fixed(l) for l in t[0]) and len({l for l in t[0] if not fixed(l)}) >= 2] or terms
+    key, coef = cand[idx % len(cand)]
     kept = tuple(l for l in key if not fixed(l))
     prod = coef
     for l in key:
@@ -130,7 +133,7 @@ def _subvalue_cases():
         ctl = st.fixed_dictionaries({
             "via": st.sampled_from(["function", "method"]),
             "slots": st.one_of(_slots(cls, 1), _slots(cls, 2), _slots(cls, 3)),
-            "cancel": st.one_of(st.none(), st.integers(0, 48)),
+            "cancel": st.one_of(st.none(), st.integers(0, 48), st.integers(0, 48)),
         })
         return st.tuples(ctl, src).map(lambda t: {
             "fn": "subvalue", "src": t[1], "via": t[0]["via"],
@@ -471,7 +474,7 @@ def _normalize(qv, spec, rec):
 
 def subchecks(tier):
     return [
-        Sub("subvalue", _subvalue_cases(), run_case, quick=12000, thorough=200000),
-        Sub("subgraph", _subgraph_cases(), run_case, quick=12000, thorough=200000),
+        Sub("subvalue", _subvalue_cases(), run_case, quick=24000, thorough=300000),
+        Sub("subgraph", _subgraph_cases(), run_case, quick=24000, thorough=300000),
         Sub("normalize", _normalize_cases(), run_case, quick=6000, thorough=100000),
     ]
